@@ -130,6 +130,42 @@ def ground_truth(shape):
     return "unknown", ""
 
 
+def engine_collapses_cmds(cmds, rule):
+    """Attribution only: does skia-pathops' simplify, called directly from the harness on the
+    reference interpretation of the outline, return a path of zero area?"""
+    import pathops
+    from picomon.ref import stroke as RST
+
+    try:
+        path = RST.engine_path(cmds)
+        path.fillType = pathops.FillType.EVEN_ODD if rule == "evenodd" else pathops.FillType.WINDING
+        path.simplify(fix_winding=True)
+        return path.area == 0
+    except Exception:
+        return False
+
+
+def engine_collapses(shape):
+    try:
+        p = resolve_props(shape)
+        rule = p["fill-rule"] if p["fill-rule"] in ("nonzero", "evenodd") else "nonzero"
+        return engine_collapses_cmds(shape_cmds(shape), rule)
+    except Exception:
+        return False
+
+
+def _subpath_cmds(sp):
+    out = [("M", tuple(sp.start))]
+    for sg in sp.segs:
+        if sg[0] == "A":
+            out.append(("A", tuple(sg[2:7]) + tuple(sg[7])))
+        else:
+            out.append((sg[0], tuple(v for pt in sg[2:] for v in pt)))
+    if sp.closed:
+        out.append(("Z", ()))
+    return out
+
+
 def describe(shape):
     import dataclasses
 
@@ -142,8 +178,14 @@ def describe(shape):
     return f"<{type(shape).tag} " + " ".join(parts) + ">"
 
 
+INSTALLED = False
+
+
 def install(empty_subpaths=True):
+    global INSTALLED
     from picosvg import svg_types as T
+
+    INSTALLED = True
 
     def make(orig):
         def might_paint(self):
@@ -163,7 +205,8 @@ def install(empty_subpaths=True):
                         gt, why = "inconclusive", repr(e)
                     events.COUNT[f"{NAME}.truth_{gt}.answer_{bool(res)}"] += 1
                     if gt == "paints" and not res:
-                        events.emit(NAME, "violation", rule="false_negative", sig="might_paint:false_negative",
+                        mech = "skia-simplify-empties-painted-outline" if why.startswith("interior point") and engine_collapses(self) else None
+                        events.emit(NAME, "violation", rule="false_negative", sig="might_paint:false_negative" + (f":{mech}" if mech else ""), mech=mech,
                                     msg=f"might_paint() is False for {key}, which paints: {why}",
                                     replay={"kind": "shape", "tag": type(self).tag, "fields": _fields(self)})
                     else:
@@ -260,7 +303,16 @@ def judge_remove_empty(before, after_d):
                 ib = PG.inside(pt, pb, rule)
                 ia = PG.inside(pt, pa, rule) if pa else False
                 if ib != ia:
-                    events.emit("remove_empty_subpaths", "violation", rule="fill_changed", sig="remove_empty_subpaths:fill_changed",
+                    mech = None
+                    if ib and not ia:
+                        # a subpath that alone covers the point, for which the engine's simplify returns nothing?
+                        for sp in PG.interpret(b):
+                            sc = _subpath_cmds(sp)
+                            spl = [q for q in PG.flatten(sc) if len(q) >= 2]
+                            if spl and PG.inside(pt, spl, rule) and PG.dist(pt, spl) >= eps and engine_collapses_cmds(sc, rule):
+                                mech = "skia-simplify-empties-painted-outline"
+                                break
+                    events.emit("remove_empty_subpaths", "violation", rule="fill_changed", sig="remove_empty_subpaths:fill_changed" + (f":{mech}" if mech else ""), mech=mech,
                                 msg=f"remove_empty_subpaths on d={before.d!r} ({rule}) gives {after_d!r}: point {pt} was {'inside' if ib else 'outside'} and is now {'inside' if ia else 'outside'}",
                                 replay=rep)
                     return
